@@ -101,15 +101,10 @@ theorem mape_nonneg (h : meanAbsolutePercentageError eps yt yp hw mo sym = .ok o
   finish_nonneg (mape_iff.mp h).2.2.2 hmo
     (zipWith_cols (fun _ _ => npAverage_nonneg hw _ hn (map_absR_nonneg _)) yt yp)
 
-theorem mdapeCol_nonneg (t p : Col) : 0 ≤ mdapeCol eps hw sym t p := by
-  unfold mdapeCol
-  cases hw with
-  | none => exact medianW_nonneg none _ (map_absR_nonneg _)
-  | some w => exact medianW_nonneg (some w) _ (map_absR_nonneg _)
-
 theorem mdape_nonneg (h : medianAbsolutePercentageError eps yt yp hw mo sym = .ok out) (hmo : NonnegMO mo) :
     Out.Nonneg out :=
-  finish_nonneg (mdape_iff.mp h).2.2 hmo (zipWith_cols (fun t p => mdapeCol_nonneg t p) yt yp)
+  finish_nonneg (mdape_iff.mp h).2.2 hmo
+    (zipWith_cols (fun _ _ => medianW_nonneg hw _ (map_absR_nonneg _)) yt yp)
 
 theorem mspe_nonneg (h : meanSquaredPercentageError eps yt yp hw mo sqrt sym = .ok out) (hn : NonnegW hw)
     (hmo : NonnegMO mo) : Out.Nonneg out :=
@@ -144,58 +139,38 @@ theorem mdrae_nonneg (h : medianRelativeAbsoluteError eps yt yp yb hw mo = .ok o
     (forall_relCols eps (fun re => medianW hw (re.map absR)) (0 ≤ ·)
       (fun _ _ _ => medianW_nonneg hw _ (map_absR_nonneg _)) yt yp yb)
 
-/-- products of floored values are strictly positive -/
-theorem gmProds_pos (he : 0 < eps) {g : Rat → Rat} (hg : ∀ x, 0 ≤ g x) :
-    ∀ q ∈ relCols eps (fun re => prod (re.map (fun e => floorEps eps (g e)))) yt yp yb, 0 < q :=
-  forall_relCols eps (fun re => prod (re.map (fun e => floorEps eps (g e)))) (0 < ·) (fun t p b => prod_pos _ (by
-    intro x hx; obtain ⟨y, _, rfl⟩ := List.mem_map.mp hx; exact floorEps_pos eps _ he (hg y))) yt yp yb
+theorem prod_zipWith_pow_pos : ∀ (xs : List Rat) (as : List Nat), (∀ x ∈ xs, 0 < x) →
+    0 < prod (List.zipWith (fun x a => x ^ a) xs as) := by
+  intro xs
+  induction xs with
+  | nil => intro as _; simp [prod]
+  | cons x xs ih =>
+    intro as h
+    cases as with
+    | nil => simp [prod]
+    | cons a as =>
+      simp only [List.zipWith_cons_cons, prod, List.foldr_cons]
+      exact mul_pos (pow_pos (h x (by simp)) a) (ih as (fun y hy => h y (by simp [hy])))
 
-theorem gmCols_nonneg (he : 0 < eps) {g : Rat → Rat} (hg : ∀ x, 0 ≤ g x) {kq : Nat × List Rat}
-    (h : gmCols eps g yt yp yb hw = .ok kq) : ∀ q ∈ kq.2, 0 ≤ q := by
-  have hp := gmProds_pos (yt := yt) (yp := yp) (yb := yb) he hg
-  unfold gmCols at h
-  simp only at h
+theorem gmFactor_pos (hw : Option (List Rat)) (xs : List Rat) (h : ∀ x ∈ xs, 0 < x) : 0 < gmFactor hw xs := by
   cases hw with
-  | none => simp only at h; cases h; exact fun q hq => le_of_lt (hp q hq)
-  | some w =>
-    simp only at h
-    split at h
-    · cases h
-    · split at h
-      · split at h
-        · cases h
-        · cases h
-          intro q hq
-          obtain ⟨a, _, rfl⟩ := List.mem_map.mp hq
-          apply pow_nonneg
-          cases hrel : relCols eps (fun re => prod (re.map (fun e => floorEps eps (g e)))) yt yp yb with
-          | nil => simp
-          | cons x xs => simp only [List.headD_cons]; exact le_of_lt (hp x (by simp [hrel]))
-      · split at h
-        · split at h
-          · cases h
-          · cases h
-            intro q hq
-            obtain ⟨P, hP, rfl⟩ := List.mem_map.mp hq
-            exact pow_nonneg (le_of_lt (hp P hP)) _
-        · split at h
-          · split at h
-            · cases h
-            · cases h
-              apply forall_zipWith_mem
-              intro P hP a _
-              exact pow_nonneg (le_of_lt (hp P hP)) _
-          · cases h
+  | none => exact prod_pos xs h
+  | some w => exact prod_zipWith_pow_pos xs _ h
+
+/-- geometric-mean radicands of floored values are strictly positive -/
+theorem gmProds_pos (he : 0 < eps) {g : Rat → Rat} (hg : ∀ x, 0 ≤ g x) :
+    ∀ q ∈ relCols eps (fun re => gmFactor hw (re.map (fun e => floorEps eps (g e)))) yt yp yb, 0 < q :=
+  forall_relCols eps (fun re => gmFactor hw (re.map (fun e => floorEps eps (g e)))) (0 < ·) (fun t p b =>
+    gmFactor_pos hw _ (by
+      intro x hx; obtain ⟨y, _, rfl⟩ := List.mem_map.mp hx; exact floorEps_pos eps _ he (hg y))) yt yp yb
 
 theorem gmrae_nonneg (he : 0 < eps) (h : geometricMeanRelativeAbsoluteError eps yt yp yb hw mo = .ok out)
-    (hmo : NonnegMO mo) : Out.Nonneg out := by
-  obtain ⟨_, _, _, kq, h1, h2⟩ := gmrae_iff.mp h
-  exact finish_nonneg h2 hmo (gmCols_nonneg he absR_nonneg h1)
+    (hmo : NonnegMO mo) : Out.Nonneg out :=
+  finish_nonneg (gmrae_iff.mp h).2.2.2.2.2 hmo (fun q hq => le_of_lt (gmProds_pos he absR_nonneg q hq))
 
 theorem gmrse_nonneg (he : 0 < eps) (h : geometricMeanRelativeSquaredError eps yt yp yb hw mo sqrt = .ok out)
-    (hmo : NonnegMO mo) : Out.Nonneg out := by
-  obtain ⟨_, _, _, kq, h1, h2⟩ := gmrse_iff.mp h
-  exact finish_nonneg h2 hmo (gmCols_nonneg he sqr_nonneg h1)
+    (hmo : NonnegMO mo) : Out.Nonneg out :=
+  finish_nonneg (gmrse_iff.mp h).2.2.2.2.2 hmo (fun q hq => le_of_lt (gmProds_pos he sqr_nonneg q hq))
 
 /-- ratio of two results: numerators ≥ 0 → ratios ≥ 0 (the denominator is clamped to ≥ eps > 0) -/
 theorem ratioOut_nonneg (he : 0 < eps) (k : Nat) (num den : Out) (hnum : Out.Nonneg num) :
@@ -255,11 +230,8 @@ theorem mape_perfect (h : meanAbsolutePercentageError eps yt yt hw mo sym = .ok 
   finish_zero (mape_iff.mp h).2.2.2 (zipWith_cols_self
     (fun t => npAverage_zero hw _ (map_zero absR_zero _ (pctCol_perfect eps sym t))) yt)
 theorem mdape_perfect (h : medianAbsolutePercentageError eps yt yt hw mo sym = .ok out) : Out.Zero out :=
-  finish_zero (mdape_iff.mp h).2.2 (zipWith_cols_self (fun t => by
-    unfold mdapeCol
-    cases hw with
-    | none => exact medianW_zero none _ (map_zero absR_zero _ (pctCol_perfect eps sym t))
-    | some w => exact medianW_zero (some w) _ (map_zero absR_zero _ (pctCol_perfect eps sym t))) yt)
+  finish_zero (mdape_iff.mp h).2.2 (zipWith_cols_self
+    (fun t => medianW_zero hw _ (map_zero absR_zero _ (pctCol_perfect eps sym t))) yt)
 theorem mspe_perfect (h : meanSquaredPercentageError eps yt yt hw mo sqrt sym = .ok out) : Out.Zero out :=
   finish_zero (mspe_iff.mp h).2.2.2 (zipWith_cols_self
     (fun t => npAverage_zero hw _ (map_zero sqr_zero _ (pctCol_perfect eps sym t))) yt)
